@@ -22,7 +22,8 @@ PROP = {
     "assumptions": [],
 }
 
-KINDS_BAD = ["duck", "block-itself", "another-block", "resized-wrong", "wrong-len", "wrong-len0", "wrong-len1", "wrong-len-double", "wrong-len+256", "wrong-len+65536", "none", "int", "str", "ndarray", "foreign-track", "list"]
+KINDS_BAD = ["duck", "block-itself", "another-block", "resized-wrong", "wrong-len", "wrong-len0", "wrong-len1", "wrong-len-double", "wrong-len+256", "wrong-len+65536", "none", "int", "str", "ndarray", "foreign-track", "list",
+             "unprintable", "uninitialised-block", "uninitialised-track"]
 
 
 def resize_track(t, tr, n, seed=0):
@@ -112,6 +113,24 @@ class Interp:
                                             if hasattr(real, k)}, _write=real._write), False
         if kind == "block-itself":
             return self.b, False
+        if kind == "unprintable":
+            # an object that cannot even be shown: repr(), str() and format() of it raise (what a message about the refused element would call)
+            class Unprintable:
+                def __repr__(self):
+                    raise RuntimeError("this object cannot be shown")
+
+                __str__ = __repr__
+
+                def __format__(self, spec):
+                    raise RuntimeError("this object cannot be shown")
+
+            return Unprintable(), False
+        if kind == "uninitialised-block":
+            cls = type(self.b)
+            return cls.__new__(cls), False      # an instance without any attribute: repr() of it raises AttributeError
+        if kind == "uninitialised-track":
+            cls = type(make_track(self.t, self.n, "u", self.counter))
+            return cls.__new__(cls), False
         if kind == "another-block":
             other = Interp(self.ctx, {"t": self.t, "n": self.n, "tracks": 1})
             return other.b, False
@@ -216,6 +235,13 @@ class Interp:
                     import itertools
                     arg = itertools.chain(own, list(els))
                     els = keep + list(els)
+            elif cont in ("other-block-wrong-length", "other-block-same-length"):
+                # ANOTHER BLOCK handed over as the iterable (a block iterates over its tracks): its tracks were checked against ITS frame
+                # count, not against this block's
+                m = self.n if cont.endswith("same-length") else self.n + 1 + self.counter % 2
+                other = Interp(self.ctx, {"t": self.t, "n": m, "tracks": 1 + self.counter % 2})
+                arg, els, all_valid = other.b, list(other.model), m == self.n
+                self.stats[cont] = self.stats.get(cont, 0) + 1
             elif cont == "object-array":
                 arg = np.empty(len(els), dtype=object)
                 for i_, e_ in enumerate(els):
@@ -332,7 +358,8 @@ def ops(t):
     elems = st.lists(st.sampled_from(["right"] * 6 + ["resized-right"] + KINDS_BAD), max_size=6)
     assign = st.fixed_dictionaries({"op": st.just("assign"), "elems": elems, "in_handler": st.sampled_from([False, False, True]),
                                     "container": st.sampled_from(["list", "list", "tuple", "generator", "generator-raises", "non-iterable", "self", "object-array", "twice",
-                                                                 "self-reversed", "self-iter", "self-filter", "self-chain", "copies-of-current", "copies-of-current"])})
+                                                                 "self-reversed", "self-iter", "self-filter", "self-chain", "copies-of-current", "copies-of-current",
+                                                                 "other-block-wrong-length", "other-block-same-length"])})
     lend = st.fixed_dictionaries({"op": st.just("lend"), "k": st.integers(0, 5)})
     return st.one_of(add, add, assign, assign, assign, lend)
 
@@ -383,7 +410,38 @@ def run_length_grid(ctx, case):
     ctx.case(case, refused > 0, labels=[t, f"n={n}"])
 
 
+def enum_refusal_matrix(tier):
+    """every kind of invalid element x its position among valid ones x every way of handing the elements over, on an empty block and on
+    one that holds two tracks: refused, and nothing of it stays"""
+    for t in ("data3D", "force3D", "emg"):
+        for tracks in (0, 2):
+            for kind in KINDS_BAD:
+                if kind.startswith("wrong-len+"):
+                    continue
+                yield {"init": {"t": t, "n": 4, "tracks": tracks}, "ops": [{"op": "add", "kind": kind, "channel": "explicit" if tracks else "auto"}, {"op": "add", "kind": "right"}]}
+                if t == "emg":
+                    continue
+                for pos, elems in (("only", [kind]), ("first", [kind, "right", "right"]), ("middle", ["right", kind, "right"]), ("last", ["right", "right", kind])):
+                    for cont in ("list", "tuple", "generator", "object-array"):
+                        yield {"init": {"t": t, "n": 4, "tracks": tracks}, "ops": [{"op": "assign", "elems": elems, "container": cont}, {"op": "add", "kind": "right"}]}
+            if t != "emg":
+                for cont in ("other-block-wrong-length", "other-block-same-length", "self", "self-reversed", "self-iter", "self-filter", "self-chain", "copies-of-current",
+                             "generator-raises", "non-iterable", "twice"):
+                    for elems in ([], ["right"], ["right", "right"]):
+                        yield {"init": {"t": t, "n": 4, "tracks": tracks}, "ops": [{"op": "assign", "elems": elems, "container": cont}, {"op": "add", "kind": "right"},
+                                                                                  {"op": "assign", "elems": elems, "container": cont}]}
+
+
+def run_matrix(ctx, case):
+    run_history(ctx, case, Interp, summarize)
+
+
 SUBS = [make(t) for t in ("data3D", "force3D", "emg")]
+SUBS.append(Sub("refusal-matrix", run_matrix, kind="enum", enumerate=enum_refusal_matrix, shards=(4, 8),
+                rule="3 block kinds x (empty / two tracks) x 17 kinds of invalid element (wrong lengths, look-alikes, the block itself, another block, foreign tracks, unprintable "
+                     "and uninitialised objects ...) x position (only / first / middle / last) x container (list / tuple / generator / object array), through add and list "
+                     "assignment; and every special iterable (another block of the same / another frame count, views of the block's own tracks, a failing generator ...) x "
+                     "0..2 new elements; finite, enumerated", nontrivial_required=False))
 SUBS.append(Sub("length-grid", run_length_grid, kind="enum", enumerate=enum_length_grid, shards=(8, 16),
                 rule="3 block kinds x frame counts 1 .. 250 000 (EMG: 1 000 000) x wrong lengths one / two frames, one part in 10^5, 10^3, 10^2 off, through add and list assignment; "
                      "finite, enumerated"))
